@@ -107,7 +107,7 @@ def rows_verdict(got, want):
 
 
 def reader_sig(kind, columns, what):
-    base = re.sub(r"\d+$", "", kind.partition(":")[0])
+    base = re.sub(r"\d+$", "", kind.partition(":")[0]).replace("tab", "csv")
     if base == "joined" and columns is not None:
         # qualifier derived from the case alone: one of the two sources contributes no requested column
         if not set(LEFT) & set(columns) or not set(RIGHT) & set(columns):
@@ -199,7 +199,7 @@ def check_writer(case, acc, d):
     rows = T.table(sum(sizes))
     path = Path(d) / f"w.{fmt}"
     path.unlink(missing_ok=True)
-    sig = f"writer-{'buffered' if bs > 1 else 'direct'}-{bt.lower()}-{fmt}-{proto}-"
+    sig = f"writer-{'buffered' if bs > 1 else 'direct'}-{bt.lower()}-"
     kw = {"column_types": [PA[c] for c in T.COLS]} if fmt == "parquet" else {}
     try:
         w = TabularDataWriter.from_suffix(path, list(T.COLS), buffer_size=bs, buffer_type=TableType[bt], **kw)
@@ -263,7 +263,7 @@ def worker(item):
 
 
 def run(ctx):
-    nmax, kmax, zeros = (5, 2, 1) if ctx.quick else (7, 3, 2)
+    nmax, kmax, zeros = (5, 2, 1) if ctx.quick else (8, 3, 2)
     cmax = nmax + 1
     kinds = OTHER_KINDS + [f"parquet{g}" for g in range(1, cmax + 1)]
     items = [("r", n, kind, kmax, cmax) for n in range(nmax + 1) for kind in kinds]
